@@ -16,8 +16,8 @@ from core import Exn, cstr, cbool, copt, call
 from saml2_tophat import samlp, BINDING_HTTP_POST, BINDING_SOAP, BINDING_HTTP_REDIRECT
 
 CLAIM = {
-    "text": "Coq theorems (Props/C06.v) over the model of status_ok/_verify/verify and the None->error tail of _parse_response: a present non-Success top-level status or a Version other than 2.0 can never yield an accepted response, for every assertion content/signature state (the assertion stage is universally quantified) and every request-id/destination/time situation; when the earlier checks pass the error is exactly the documented class, with today's STATUSCODE2EXCEPTION regenerated from source and proved equal to the hand-written documented table. Tie to the code: exhaustive cross product of the property's quantifier through the real SP entry points vs the model on every run.",
-    "note": "Trusted: Coq kernel + vm_compute; the model is hand-written and tied to the code by the exhaustive correspondence table (POST and SOAP, authn/logout responses, authn requests); float() of Version strings is an oracle input; stand-in xmlsec1 for the signed-assertion cells; reflection translator for the status table. A response lacking <Status> altogether is outside the quantifier and is accepted by the code (modelled, reported as an observation).",
+    "text": "Coq theorems (Props/C06.v) over the model of status_ok/_verify/verify and the None->error tail of _parse_response: a present non-Success top-level status or a Version other than 2.0 can never yield an accepted response, for every assertion content/signature state (the assertion stage is universally quantified) and every request-id/destination/time situation; when the earlier checks pass the error is exactly the documented class, with today's STATUSCODE2EXCEPTION regenerated from source and proved equal to the hand-written documented table. The model compares codes by exact string equality, and it is proved that a top-level value other than the literal specification URN of Success - every proper substring or superstring, every string of another length, every member of a Gallina-generated near-miss set (one character dropped/inserted/replaced/case-changed, proper prefixes and suffixes incl. the empty string, white space around; proved different from the original for ANY string by induction) - is not Success and is never accepted; a second-level code outside the documented 21 gets the generic error, and no generated near-miss of a documented code is documented. Tie to the code: exhaustive cross product of the property's quantifier through the real SP entry points vs the model on every run, plus ~275 textual near-misses of the Success URN (literal spec strings) x second-level kinds x POST/SOAP with a valid signed assertion, the same through logout responses, the 21 second-level URNs as literal spec strings (exact documented class) and ~60 near-misses of each (refused, never a specific class).",
+    "note": "Trusted: Coq kernel + vm_compute; the model is hand-written and tied to the code by the exhaustive correspondence table (POST and SOAP, authn/logout responses, authn requests); float() of Version strings is an oracle input; stand-in xmlsec1 for the signed-assertion cells; reflection translator for the status table. For near-miss top-level codes only accepted/refused is compared (the class is unspecified there; Value="" / no Value are refused by the schema check before status_ok). A response lacking <Status> altogether is outside the quantifier and is accepted by the code (modelled, reported as an observation).",
     "technique": "machine-checked proof (Coq) + regenerated-table obligation + exhaustive model/implementation correspondence",
 }
 TRUSTED = [
@@ -25,10 +25,13 @@ TRUSTED = [
     "float() of the Version string is an oracle input of the model (ver_lt2), computed by Python itself per case",
     "modelled: StatusResponse.status_ok/_verify, AuthnResponse.verify, StatusResponse.verify, Request._verify, the None->AttributeError tail of Entity._parse_response; the assertion stage is an abstract parameter `rest` (any value) in the theorems",
     "stand-in xmlsec1 (harness/tools/xmlsec_core.py) signs/verifies the 'valid signed assertion' cells",
+    "near-miss cells: the <Status> element of a built response (assertion signed, response not) is replaced textually by literal XML; the XML parser's attribute handling is part of the real run, the model receives the intended string",
 ]
 ASSUMPTIONS = ["a response with no <Status> element at all is outside the property's quantifier (top-level status codes); the model carries it (C06_absent_status_passes) and the harness runs it without alarming"]
 RULE = ("exhaustive cross product of the property's quantifier, every cell run through Saml2Client.parse_authn_request_response "
-        "and through the model; a cell is non-trivial when the status is not Success or the version is not 2.0 (distinct by cell coordinates)")
+        "and through the model; a cell is non-trivial when the status is not Success or the version is not 2.0 (distinct by cell coordinates); "
+        "near-miss cells: the full literal near-miss list (harness/c06_near.py) x second-level kind x binding with a signed assertion, "
+        "assertion-less and extra top-level picks sampled by the seed on the quick tier, full cross on thorough")
 
 SOAP_ENV = ('<ns0:Envelope xmlns:ns0="http://schemas.xmlsoap.org/soap/envelope/"><ns0:Body>%s</ns0:Body></ns0:Envelope>')
 
